@@ -6,7 +6,7 @@ import hashlib
 from checks import oracles as O
 from checks import oracles_reg as R
 from checks.common import result, stats_from_history
-from checks.history import gen_history
+from checks.history import gen_fanin_history, gen_history
 from model import machine, ref
 from model.core import canon, typed_equal
 
@@ -16,6 +16,15 @@ K_CAP = {"quick": 40, "thorough": 120}
 def generate(prop, seed, tier):
     desc, rng = gen_history(seed, tier, n_ops=(0, 4), allow=("run", "fail", "update", "delete", "fresh", "bump", "bump"),
                             final_run=True, genkw=dict(durs=(0.0, 0.0, 1.0, 2.0)))
+    if seed % 2 == 1:
+        # the repairing run decides what is out of date on several stale-check workers at once: stress that phase
+        # (a fan-in shape whose inputs were touched, cut anywhere, then a follow-up under adversarial schedules)
+        if seed % 4 == 1:
+            desc, rng = gen_fanin_history(seed, rng)
+        desc["follow"] = dict(stale_workers=rng.choice([2, 3, 4]), max_workers=rng.choice([2, 3]),
+                              sched=dict(strategy=rng.choice([["rw", 0.05, 0.5], ["rw", 0.1, 0.5], ["rw", 0.2, 0.5],
+                                                              ["rw", 0.3, 0.5], ["pct", 30, 1500], ["pct", 10, 600, 1]]),
+                                         gran="opcode+", salt=desc["sched"]["salt"]))
     desc["tier"] = tier
     last = desc["ops"][-1]
     last["cfg"]["max_errors"] = rng.choice([0, 0, 2, None])
@@ -96,8 +105,12 @@ def _execute(prop, desc, hist):
             v = o_after_cut(rec, world, hist)
             if not v:
                 follow = dict(op="run", cfg=dict(op["cfg"], output=True, max_errors=0, retry=None))
+                if desc.get("follow"):
+                    follow["cfg"].update(stale_workers=desc["follow"]["stale_workers"], max_workers=desc["follow"]["max_workers"])
+                    follow["sched"] = desc["follow"]["sched"]
                 written_in_cut = _complete_writes(rec)
-                rec2 = machine.apply_op(hist, follow, idx + 1)
+                # (its own schedule for every cut position: the operation index seeds the simulator)
+                rec2 = machine.apply_op(hist, follow, idx + 1 + 2 * k + (mode == "death"))
                 v = o_followup(rec, rec2, world, hist, written_in_cut)
             if v:
                 for x in v:
